@@ -188,6 +188,57 @@ Example C41_multi_nonvacuous :
   /\ fst (list_info_stream false (fun es => []) [IOk [[1%N]] [1%N]; IErr]) = [[1%N]; []].
 Proof. vm_compute. repeat split; reflexivity. Qed.
 
+(* PAGE SELECTIONS.  The selection is a finite map page -> bool (negated pages present with
+   false); selected = keys with value true.  The counting loop of extractSelectedPageToStdout
+   decides on `selected` alone: stdout gets a page exactly when one key has value true *)
+Theorem C41_stdout_page_decision : forall m,
+  stdout_page m = match selected m with [p] => Some p | _ => None end.
+Proof. exact stdout_page_spec_l. Qed.
+Print Assumptions C41_stdout_page_decision.
+
+(* … independently of the order in which Go iterates the map *)
+Theorem C41_stdout_page_order_independent : forall m m',
+  Permutation.Permutation m m' -> stdout_page m = stdout_page m'.
+Proof. exact stdout_page_perm_l. Qed.
+Print Assumptions C41_stdout_page_order_independent.
+
+(* stdout mode = file mode for every selection: the page document is on stdout with exit 0
+   exactly when file mode writes exactly one file (and it is that file); otherwise stdout is
+   empty and the exit status is 1 *)
+Theorem C41_stdout_mode_equals_file_mode : forall doc m,
+  stdout_mode doc m = match file_mode_outputs doc m with
+                      | [d] => (d, 0%Z)
+                      | _ => ([], 1%Z)
+                      end.
+Proof. exact stdout_mode_spec_l. Qed.
+Print Assumptions C41_stdout_mode_equals_file_mode.
+
+(* counting keys (len(pages) == 1, take the only key) is wrong both ways: '2-3,!2' would be
+   refused and '!2' would write page 2 *)
+Theorem C41_counting_keys_refuted :
+  (exists m, stdout_page m = Some 3%Z /\ naive_stdout_page m = None)
+  /\ (exists m, stdout_page m = None /\ naive_stdout_page m = Some 2%Z).
+Proof. exact naive_stdout_page_wrong. Qed.
+Print Assumptions C41_counting_keys_refuted.
+
+(* T: in the regenerated table of functions consuming api.PagesForPageSelection, whoever ranges
+   over the map has the count-by-value loop followed by `if count != 1 { return … }`, and no
+   function uses len() or indexing on it *)
+Theorem C41_selection_consumers_count_by_value : forall r, In r sel_table ->
+  s_uses_len r = false /\ s_uses_index r = false
+  /\ (s_ranges r = true -> s_counts_by_value r = true /\ s_single_guard r = true).
+Proof. exact sel_rows_l. Qed.
+Print Assumptions C41_selection_consumers_count_by_value.
+
+Example C41_selection_nonvacuous :
+  stdout_page [(2%Z, false); (3%Z, true)] = Some 3%Z
+  /\ stdout_page [(1%Z, false); (2%Z, false); (3%Z, true)] = Some 3%Z
+  /\ stdout_page [(5%Z, true); (6%Z, false)] = Some 5%Z
+  /\ stdout_page [(2%Z, false)] = None
+  /\ stdout_page [(1%Z, true); (3%Z, true)] = None
+  /\ sel_table_has_stdout_fn = true.
+Proof. vm_compute. repeat split; reflexivity. Qed.
+
 (* non-vacuity: both sinks and an error occur; the tables are non-empty and contain the helpers *)
 Example C41_nonvacuous :
   (exists tr, streamInOut ADash AEmpty (mkEnv SOk true CNew true) true = POk SrcStdin SnkStdout tr false)
